@@ -266,6 +266,7 @@ class Proc:
         self.version = version
         self.vfs = Vfs.load(pool.get("vfs_variants", [pool["vfs"]])[version]).install()
         self.compilers: dict = {}
+        self.kept: list = []  # results handed to the caller earlier: a later call must not change them
         self.shared: dict = {}  # doc index -> (infos, coros, rops) objects reused by `share` ops
         self.held: list = []
         self.alloc = AddressAllocator(seeds.stream(run_seed, f"addr{segment}"))
@@ -352,7 +353,10 @@ def do_op(P: Proc, op: dict) -> dict:
             return {"digest": dg}
         if slot is not None:
             P._failed_slots.discard(slot)
-        return {"digest": model.compile_digest(c)}
+        dg = model.compile_digest(c)
+        if slot is None:
+            P.kept.append(("C", c, model.canon(dg)))
+        return {"digest": dg}
     if kind in ("D", "S", "J"):
         j = op["j"]
         doc = pool["docs"][j]
@@ -390,6 +394,7 @@ def do_op(P: Proc, op: dict) -> dict:
         try:
             text, sm = d.convert()
             dg = model.decompile_digest(text, sm)
+            P.kept.append(("D", (text, sm), model.canon(dg)))
         except Exception as e:
             dg = model.failure_digest(e)
         if pre_view is not None:
@@ -486,7 +491,16 @@ def run_segment(pool: dict, ops: list, run_seed: int, segment: int, version: int
         rec["cache_entries"] = P.cache_entries()
         rec["ver"] = P.version
         recs.append(rec)
-    recs.append({"probes": P.probes, "alloc": P.alloc.stats, "cache_entries_end": P.cache_entries()})
+    # what earlier calls returned must still be what it was when they returned it
+    changed = []
+    for idx, (kind, obj, canon_then) in enumerate(P.kept[-40:]):
+        try:
+            now = model.canon(model.compile_digest(obj)) if kind == "C" else model.canon(model.decompile_digest(*obj))
+        except Exception as e:
+            now = f"unreadable: {type(e).__name__}"
+        if now != canon_then:
+            changed.append(f"{kind}#{idx}")
+    recs.append({"probes": P.probes, "alloc": P.alloc.stats, "cache_entries_end": P.cache_entries(), "results_changed_later": changed})
     return recs
 
 
@@ -609,6 +623,10 @@ def judge_history(recs_by_segment: list, refs: dict) -> list:
     """-> violations [{sig, n, op, …}]"""
     viols = []
     for seg, recs in enumerate(recs_by_segment):
+        tail = recs[-1] if recs else {}
+        if tail.get("results_changed_later"):
+            viols.append({"sig": {"clause": "a-later-call-does-not-change-an-earlier-result", "op": tail["results_changed_later"][0][0], "field": "returned object"},
+                          "segment": seg, "n": len(recs) - 1, "op": {"k": "G"}, "detail": ",".join(tail["results_changed_later"][:5])})
         for r in recs:
             if "k" not in r or r["k"] not in ("C", "D", "S", "J", "SC"):
                 continue
